@@ -1,11 +1,12 @@
 import argparse, json, os, sys, traceback
 from common import *
-import fam_map, fam_diff, fam_cursor
+import fam_map, fam_diff, fam_cursor, fam_flush
 
 FAMILIES = {}
 FAMILIES.update({p: fam_map.check for p in fam_map.PROPS})
 FAMILIES.update({p: fam_diff.check for p in fam_diff.PROPS})
 FAMILIES.update({p: fam_cursor.check for p in fam_cursor.PROPS})
+FAMILIES.update({p: fam_flush.check for p in fam_flush.PROPS})
 
 
 def main():
